@@ -75,6 +75,11 @@ func c19Gen(r *sim.Rand, tier string) *sim.Case {
 		cs.Knobs["burst"] = 2 * maxpkt
 		n = r.Range(12*int(maxpkt), 20*int(maxpkt))
 	}
+	if cs.Variant == "random" && cs.Knobs["ingress"] == 0 && r.P(25) {
+		// failing system call in the control plane: the same policy is re-applied (a CoA refresh)
+		// at this packet index while the kernel refuses the write to the other direction's map
+		cs.Knobs["refail_at"] = int64(r.Range(1, n/2))
+	}
 	for i := 0; i < n; i++ {
 		size := int64(1 + r.N(int(maxpkt)))
 		if r.P(30) {
@@ -211,6 +216,20 @@ func c19Run(c *sim.Ctx) {
 		if c.Failed() {
 			break
 		}
+		if ra := cs.Knob("refail_at", 0); ra > 0 && int64(i) == ra && !ingress && !backlogged {
+			// the ingress map stops accepting writes (stand-in for ENOMEM / a frozen or closed map);
+			// the egress direction, which is the one measured, must stay under contract
+			ingressM.Close()
+			err := mgr.SetSubscriberQoS(&qos.SubscriberQoS{IP: sub, DownloadBPS: rate, UploadBPS: rate, BurstBytes: burst, Priority: 3, PolicyName: "p"})
+			if err != nil {
+				c.S.Fault("kmap.update-refused")
+			} else {
+				c.S.Probe("reapply_succeeded_despite_closed_map")
+			}
+			// the re-applied bucket may start full again: the reference window restarts here
+			admitted, elapsed, minG, winStartAdm, winStartEl = new(big.Int), new(big.Int), nil, nil, nil
+			hits, misses = 0, 0
+		}
 		gap, size := uint64(op.Arg(0)), op.Arg(1)
 		if size < 1 {
 			size = 1
@@ -220,6 +239,15 @@ func c19Run(c *sim.Ctx) {
 		}
 		if backlogged && pendingSize > 0 {
 			size = pendingSize // the packet that was refused is still waiting
+		}
+		switch {
+		case gap == 0:
+			c.S.Probe("arrival_same_instant")
+		case gap >= 3600_000_000_000:
+			c.S.Probe("clock_idle_gap_over_1h")
+		}
+		if now+gap < now {
+			c.S.Probe("clock_ktime_wraps_64bit")
 		}
 		now += gap
 		elapsed.Add(elapsed, new(big.Int).Mul(rateB, new(big.Int).SetUint64(gap)))
@@ -285,6 +313,12 @@ func c19Run(c *sim.Ctx) {
 	}
 	c.State(uint64(hits)<<16 | uint64(misses))
 	c.NonTrivial = hits > 0 && misses > 0 || rate == 0
+	if hits > 0 && misses > 0 {
+		c.S.Probe("both_verdicts_" + cs.Variant)
+	}
+	if rate == 0 {
+		c.S.Probe("rate_zero_unlimited")
+	}
 }
 
 func dirName(ingress bool) string {
@@ -302,7 +336,7 @@ func init() {
 		Real: []string{"bpf/qos_ratelimit.c (qos_egress_prog, qos_ingress_prog, token_bucket_check) compiled natively with clang against shim helper headers",
 			"qos.Manager.SetSubscriberQoS writing the token bucket into a real kernel hash map (cilium/ebpf marshalling)", "the kernel's map implementation (bpf(2) lookup/update)"},
 		Stub:         []string{"TC attach and __sk_buff (a 64-byte linear header below 4 GiB, skb->len set by the harness)", "bpf_ktime_get_ns (simulated kernel clock)", "in-place map value mutation (emulated by lookup + write-back after the program returns)"},
-		Rule:         "cases: one subscriber, rate 1 kbit/s-100 Gbit/s, burst 1-2^32-1, 50-2000 arrivals (sizes 1-65535, gaps 0 ns-days, kernel clock anywhere in 64 bits); variants random / always-backlogged / unlimited; non-trivial = >=3 packets and both verdicts (admit and drop) occurred, or rate 0; distinct = distinct case hash",
+		Rule:         "cases: one subscriber, rate 1 kbit/s-100 Gbit/s, burst 1-2^32-1, 50-2000 arrivals (sizes 1-65535, gaps 0 ns-days, kernel clock anywhere in 64 bits); variants random / always-backlogged / unlimited; in a quarter of the random egress runs the same policy is re-applied mid-run while the other direction's map refuses the write (the reference window restarts there); non-trivial = >=3 packets and both verdicts (admit and drop) occurred, or rate 0; distinct = distinct case hash",
 		QuickRuns:    5000,
 		ThoroughRuns: 400000,
 		Assumptions: []string{"one CPU runs the program on a bucket at a time (no concurrent in-kernel updates)", "native code generation instead of the BPF back end",
